@@ -429,9 +429,17 @@ pub fn build_session(r: &mut Rng, seed: u64, run: u64, plan: &SessionPlan) -> Op
         let mut pr = r.fork("program");
         let prog = generate(&mut pr, &cfg);
         let text = prog.render();
-        let info = prog.info();
+        let mut info = prog.info();
         match assemble_count(&text) {
             Some(n) if n == info.idx_line.len() => {}
+            // the assembler accepts the program but emits another number of instructions than the
+            // generator counted (never the case on the pinned tree): the instruction -> line table
+            // cannot be trusted, but the program is not thrown away - for C16 it is judged by what
+            // can be said without the table (the cited line must be able to produce the instruction
+            // that is executing)
+            Some(_) if plan.property == "C16" && !plan.alt_plain_ref => {
+                info.tags.push("count_mismatch".to_owned());
+            }
             other => {
                 if std::env::var("SIM_GEN_DEBUG").is_ok() {
                     println!("REJECT assemble {:?} vs {}:\n{}\n----", other, info.idx_line.len(), text);
